@@ -5,9 +5,10 @@
    implementation held after refilling (the oracle), checks that it is a legal refill, and is
    structurally recursive on that list. *)
 From StrettoModel Require Export Base Metrics.
+From StrettoModel Require Consts.
 Open Scope Z_scope.
 
-Definition SAMPLES : nat := 5.
+Definition SAMPLES : nat := N.to_nat Consts.DEFAULT_SAMPLES.
 
 Definition pair := (key * Z)%type.
 
